@@ -1014,7 +1014,8 @@ def readspec(platein, mjd=None, fiber=None, **kwargs):
         #
         photofile = os.path.join(sppath[0],
                                  "photoPlate-{0}.fits".format(pmjdstr))
-        if not os.path.exists(photofile):
+        if (not os.path.exists(photofile) and 'SPECTRO_MATCH' in os.environ and
+                'PHOTO_RESOLVE' in os.environ):
             #
             # Hmm, maybe this is an SDSS-I,II plate
             #
